@@ -301,6 +301,9 @@ func populateStruct(originalVal reflect.Value, vs []FieldValueTuple, inputIndex 
 	}
 	val := vs[inputIndex].Value
 	if !isNil(val) {
+		if !val.Type().AssignableTo(originalVal.Type()) {
+			return inputIndex, false, fmt.Errorf("error unmangling. Expected type %s. Actual type %s", val.Type(), originalVal.Type())
+		}
 		originalVal.Set(val)
 		anyChildSet = true
 	}
